@@ -109,7 +109,7 @@ class Overlay:
             elif s.startswith("// @ob ") and pending is not None:
                 pending.obligations.append(s[len("// @ob "):].strip())
             elif pending is not None:
-                m = re.match(r"(pub(\(crate\))?\s+)?fn\s+(\w+)\s*\(", s)
+                m = re.match(r"(pub(\(crate\))?\s+)?fn\s+(\w+)\s*\(", s) or re.match(r"(\w+!)(\()(\w+),", s)
                 if m:
                     if m.group(3) != pending.name:
                         raise SystemExit(f"overlay {self.path}: @harness {pending.name} precedes fn {m.group(3)}")
